@@ -102,7 +102,9 @@ def corpus_variant(text, rnd):
     for i, l in enumerate(lines[:end]):
         code = l.split(";")[0]
         after = brace + code.count("{") - code.count("}")
-        if brace == 0 and after == 0 and code.strip() and not code.rstrip().endswith(("+", "-", "*", ",", "(")):
+        nxt = next((x.strip() for x in lines[i + 1:end] if x.strip()), "")
+        if brace == 0 and after == 0 and code.strip() and not code.rstrip().endswith(("+", "-", "*", ",", "(")) and not nxt.startswith("{") \
+                and ".repeat" not in code.lower():
             safe_slots.append(i + 1)
         m = ASSIGN_LINE.match(l)
         if m and brace == 0 and "." not in re.sub(r"[A-Za-z_0-9$.]*[A-Za-z_0-9$]|\d+\.", "", m.group(2)) and m.group(2).strip() and \
